@@ -11,3 +11,5 @@ import NutsModel.Thm.C02
 import NutsModel.Thm.C18
 import NutsModel.Thm.C15
 import NutsModel.Thm.C14
+import NutsModel.Thm.Controller
+import NutsModel.Thm.CtlTrace
